@@ -357,7 +357,7 @@ var failScripts = []map[int]bool{{}, {1: true}, {2: true}, {1: true, 2: true}, {
 func sequential(c *vh.Ctx) {
 	kinds := kindsAll[:2]
 	alpha := alphabet(2, 2)
-	maxLen := c.N(4, 6)
+	maxLen := c.N(4, 5)
 	var mu sync.Mutex
 	seenAll := map[string]bool{}
 	for L := 1; L <= maxLen; L++ {
